@@ -75,7 +75,9 @@ Definition path_wire_valid (p : dp_path) : bool :=
   | DP_Std ci ch segs => std_wire_valid ci ch segs
   | DP_OneHop _ _ _ => true
   | DP_Empty => true
-  | DP_Unsupported _ d => blen d mod 4 =? 0
+  | DP_Unsupported pt d =>
+    (* C03 repair: a supported type number would read back as that path kind *)
+    negb ((pt =? PT_EMPTY) || (pt =? PT_SCION) || (pt =? PT_ONEHOP)) && (blen d mod 4 =? 0)
   end.
 
 (** * Header *)
@@ -129,6 +131,7 @@ Definition U16_MAX : N := 65535.
 Definition payload_wire_valid (p : payload) : bool :=
   match p with
   | PL_Udp _ _ d => negb (U16_MAX <? UdpDatagram_HEADER_SIZE_BYTES + blen d)   (* C03 repair *)
+  | PL_Scmp (SM_Unknown ty _ _) => negb (scmp_is_known ty)                     (* C03 repair *)
   | _ => true
   end.
 
@@ -204,7 +207,8 @@ Definition encode_path (p : dp_path) (buf : bytes) : bytes :=
   | DP_Std ci ch segs =>
     let s0 := seg_len8 segs 0 in let s1 := seg_len8 segs 1 in let s2 := seg_len8 segs 2 in
     let meta := w StdPathMeta_SEG2_LEN_RNG s2 (w StdPathMeta_SEG1_LEN_RNG s1 (w StdPathMeta_SEG0_LEN_RNG s0
-                  (w StdPathMeta_CURR_HOP_FIELD_RNG ch (w StdPathMeta_CURR_INFO_FIELD_RNG ci buf)))) in
+                  (w StdPathMeta_RSV_RNG 0      (* C03 repair: reserved bits written *)
+                  (w StdPathMeta_CURR_HOP_FIELD_RNG ch (w StdPathMeta_CURR_INFO_FIELD_RNG ci buf))))) in
     on_suffix StdPathMeta_SIZE_BYTES
       (fun data => encode_hops (std_hops segs) s0 s1 s2 0 (encode_infos (map s_info segs) 0 data)) meta
   | DP_OneHop i h1 h2 =>
@@ -266,7 +270,9 @@ Definition encode_scmp_body (m : scmp_msg) (hs : N) (buf : bytes) : bytes :=
   let b1 := fold_left (fun b f => w (fst f) (snd f) b) (scmp_hdr_fields m) (w ScmpMessage_TYPE_RNG ty buf) in
   let hdr := scmp_header_size ty in
   let n := scmp_size m hs in
-  if scmp_fixed_size ty then b1 else put hdr (firstn (N.to_nat (n - hdr)) (scmp_quote m)) b1.
+  (* C03 repair: an unknown message's bytes between checksum and data are zeroed *)
+  let b2 := match m with SM_Unknown _ _ _ => put (byte_hi ScmpUnknownMessage_CHECKSUM_RNG) (zeros (hdr - byte_hi ScmpUnknownMessage_CHECKSUM_RNG)) b1 | _ => b1 end in
+  if scmp_fixed_size ty then b2 else put hdr (firstn (N.to_nat (n - hdr)) (scmp_quote m)) b2.
 
 Definition encode_payload (h : pkt_hdr) (p : payload) (hs : N) (al_host al : bool) (buf : bytes) : bytes :=
   match p with
